@@ -210,7 +210,8 @@ def run_check(prop: str, tier: str, seed: int, jobs: int, quiet: bool = True) ->
     # depend on the seed; only the "generic" numbers do).  Stream 0 keeps the plain keys.
     streams = int(os.environ.get("VERIF_THOROUGH_STREAMS", getattr(mod, "THOROUGH_STREAMS", 1))) if tier == "thorough" else 1
     if streams > 1:
-        cases = cases + [dict(c, key=f"{c['key']}@fill{st}", _stream=st) for st in range(1, streams) for c in cases]
+        # (cases marked _fixed do not depend on the fill stream at all - exhaustively enumerated exact inputs - and run once)
+        cases = cases + [dict(c, key=f"{c['key']}@fill{st}", _stream=st) for st in range(1, streams) for c in cases if not c.get("_fixed")]
     keys = [c["key"] for c in cases]
     if len(set(keys)) != len(keys):
         dup = [k for k in set(keys) if keys.count(k) > 1][:3]
